@@ -273,8 +273,9 @@ func Unmarshal(bs []byte, v interface{}) error {
 		// Say "fact=" in a query string.
 		return UnknownSyntax
 	}
-	if bs[0] == '{' {
-		return json.Unmarshal(bs, v)
+	// (A JSON text may begin with white space.)
+	if text := bytes.TrimLeft(bs, " \t\r\n"); 0 < len(text) && text[0] == '{' {
+		return json.Unmarshal(text, v)
 	}
 
 	// Do we have at least one newline?
